@@ -215,6 +215,7 @@ def run_case(case):
                 cfgs = [{"njob": rng.choice([1, 2, 3, 4]),
                          "resources": rng.choice(["cpu:2,gpu:2", "cpu:2,gpu:1", "cpu:3", "cpu:1,gpu:1", None]),
                          "keep_going": rng.random() < 0.3,
+                         **({"db_delay": {"p": rng.choice([0.1, 0.4]), "max": 0.003, "seed": rng.randrange(1 << 30)}} if rng.random() < 0.3 else {}),
                          **({"thread_delay": {"p": rng.choice([0.3, 1.0]), "max": 0.02, "seed": rng.randrange(1 << 30)}} if rng.random() < 0.3 else {})}
                         for _ in range(len(phases) + 1)]
             witness.update({"spec": spec, "configs": cfgs})
